@@ -428,6 +428,8 @@ def forward(ctx):
             'every association of the component is formalised', mc, construct=OOA + ':mk_component', key='formalize',
             msg='mk_component does not formalize the associations it defined')
     gs = repo.func('bridgepoint.gen_sql_schema:main')
-    ok = pm.contains('_C = loader.build_component(opts.component, opts.derived)', gs) and pm.contains('xtuml.persist_database(_C, opts.output)', gs)
+    from .common import resolve_locals
+    ok = any(pm.match('loader.build_component(opts.component, opts.derived)', resolve_locals(gs, env_['_C'], pure_only=False)) is not None
+             for _n, env_ in pm.find('xtuml.persist_database(_C, opts.output)', gs))
     r.check(ok, 'gen_sql_schema passes -c / -d to build_component and writes the component', gs, construct='bridgepoint.gen_sql_schema:main', key='cli',
             msg='gen_sql_schema.main does not call build_component(opts.component, opts.derived) and persist the result to opts.output')
